@@ -107,7 +107,8 @@ def judge_case(case, build, wd):
     model, tv, cv = histgen.views_along(desc, enabled, marks, hist)
     shutil.rmtree(wd, ignore_errors=True)
     extra = histgen.mark_meta(marks)
-    tracegen.write_trace(wd, desc, hist, require=histgen.require_of(enabled), extra_meta=extra)
+    tracegen.write_trace(wd, desc, hist, require=histgen.require_of(enabled), extra_meta=extra,
+                         require_on=["all", "first", "last"][len(hist) % 3])
     args = ["-l"] if case.get("lint") else []
     res = emu.emu(build, wd, args, timeout=60)
     if res.timeout:
